@@ -858,6 +858,16 @@ class TypeBlocks(ContainerOperand):
                 ufunc_skipna=ufunc_skipna,
                 )
 
+        if not self._blocks: # no columns
+            if axis == 0 or not self._shape[0]:
+                # no rows or columns to reduce to a value: nothing to call the function on
+                result = np.empty(0, dtype=dtypes[0] if dtypes else None)
+            else:
+                # every row reduces an empty array
+                result = func(array=self.values, axis=axis)
+            result.flags.writeable = False
+            return result
+
         if self.unified:
             result = func(array=column_2d_filter(self._blocks[0]), axis=axis)
             result.flags.writeable = False
